@@ -49,13 +49,21 @@ let () =
           let n = nat_of_int (int_of_string n) in
           let frags = List.rev (List.map units_of_hex toks) in   (* name order *)
           Printf.printf "S=%s K=%s KN=%s\n" (hex_of_bytes (lfn_spec n frags)) (b01 (knownClass frags)) (b01 (knownClassN n frags))
+      | "T" :: n :: toks ->
+          (* the spec after every call of a history: S:K:KN per call, joined by / *)
+          let n = nat_of_int (int_of_string n) in
+          let pushed = ref [] in   (* fragments pushed since the last clear, newest first = name order *)
+          let outs = List.map (fun t ->
+            if t = "c" then pushed := [] else pushed := units_of_hex t :: !pushed;
+            Printf.sprintf "%s:%s:%s" (hex_of_bytes (lfn_spec n !pushed)) (b01 (knownClass !pushed)) (b01 (knownClassN n !pushed))) toks in
+          Printf.printf "T=%s\n" (String.concat "/" outs)
       | ["L"; _n] -> Printf.printf "L=\n"
       | "L" :: _n :: toks ->
           let frags = List.rev (List.map units_of_hex toks) in
           Printf.printf "L=%s\n" (hex_of_bytes (utf8 (lossy (name_units frags))))
       | ["V"] -> Printf.printf "V=%s\n" (b01 (valid_utf8 []))
       | ["V"; hex] -> Printf.printf "V=%s\n" (b01 (valid_utf8 (bytes_of_hex hex)))
-      | "D" :: n :: toks ->
+      | ("D" | "F") :: n :: toks ->
           let n = int_of_string n in
           let slots = List.map bytes_of_hex toks in
           (match listing slots (lfn_new (List.init n (fun _ -> N0))) with
